@@ -223,6 +223,24 @@ def _dtype_block(V, rng, tier):
         except Exception as ex:
             V.fail("pad with a complex fill value raises %s" % type(ex).__name__, dict(desc, exc=str(ex)[:200]))
         dist["pad complex value " + ("operator" if ttm else "tensor")] = dist.get("pad complex value " + ("operator" if ttm else "tensor"), 0) + 1
+    # the concatenation axis / the mode of a mode product given as a numpy integer
+    for j in range(6 if tier == "quick" else 40):
+        dt = [torch.float64, torch.complex128, torch.float32][j % 3]; npt = [np.int64, np.int32, np.intp][j % 3]
+        d = rng.choice([1, 2, 3]); N = [rng.choice([2, 3]) for _ in range(d)]; k_ = rng.randrange(d)
+        x = mk(dt, N, [1] + [rng.choice([1, 2]) for _ in range(d - 1)] + [1]); N2 = list(N); N2[k_] = rng.choice([1, 2])
+        y = mk(dt, N2, [1] + [rng.choice([1, 2]) for _ in range(d - 1)] + [1])
+        desc = {"numpy_integer_axis": True, "dtype": str(dt), "N": N, "axis": k_, "type": npt.__name__}
+        try:
+            r = torchtt.cat((x, y), npt(k_)); ref = torch.cat((x.full(), y.full()), k_)
+            if list(r.full().shape) != list(ref.shape) or not torch.equal(r.full(), ref): V.fail("cat along an axis given as a numpy integer differs from the dense concatenation", desc)
+            F_ = torch.tensor(np.array([[rng.randint(-2, 2) for _ in range(N[k_])] for _ in range(2)], dtype=np.float64)).to(dt)
+            refm = torch.movedim(torch.tensordot(F_, x.full(), dims=([1], [k_])), 0, k_)
+            for nm, f in (("mprod(F, numpy int)", lambda: x.mprod(F_, npt(k_))), ("mprod([F], [numpy int])", lambda: x.mprod([F_], [npt(k_)]))):
+                r2 = f()
+                if list(r2.full().shape) != list(refm.shape) or not torch.equal(r2.full(), refm): V.fail("%s differs from the dense mode product" % nm, desc)
+        except Exception as ex:
+            V.fail("cat / mprod with a numpy integer axis raises %s" % type(ex).__name__, dict(desc, exc=str(ex)[:200]))
+        dist["axis as numpy integer"] = dist.get("axis as numpy integer", 0) + 1
     # a fill value that is huge next to the data (float32: 1e8, float64: 1e17, and the mirror image: data 1e-12 next to a fill of 1): the padded tensor still
     # holds the data (torch's constant pad keeps it bit for bit) - measured relative to the DATA, not to the largest entry of the result
     for j in range(8 if tier == "quick" else 60):
